@@ -212,21 +212,43 @@ def run(ctx: Ctx, tier: str) -> Result:
 
     # ---------------- INT (first: the table below reads the limits through it)
     gi = p.func(LA + ".__get_int")
-    tries = list(t.nodes_in(gi, ast.Try))
+    # the guarded conversion may sit in a parsing helper the reader hands its text and its default to (`return parse_int(text,
+    # default)`): follow such pure delegations, keeping track of which parameter carries the default and which the converter
+    gh, dflt_name, conv_is_int = gi, gi.params[2] if len(gi.params) > 2 else None, {}
+    for _ in range(3):
+        body_ = [st for st in gh.node.body if not (isinstance(st, ast.Expr) and isinstance(st.value, ast.Constant))]
+        if not (len(body_) == 1 and isinstance(body_[0], ast.Return) and isinstance(body_[0].value, ast.Call)):
+            break
+        tg_ = t.resolve_call(body_[0].value, gh)
+        if len(tg_.repo) != 1 or tg_.ext:
+            break
+        nxt = tg_.repo[0]
+        b_ = t.bind_args(nxt, body_[0].value)
+        nd = [pn for pn, a_ in b_.items() if isinstance(a_, ast.Name) and a_.id == dflt_name]
+        conv_is_int = {pn for pn, a_ in b_.items() if isinstance(a_, ast.Name) and (a_.id == "int" or a_.id in conv_is_int)}
+        if len(nd) != 1:
+            break
+        gh, dflt_name = nxt, nd[0]
+    tries = list(t.nodes_in(gh, ast.Try))
     ok = False
     if len(tries) == 1:
         tr = tries[0]
-        conv = [c for c in ast.walk(tr) if isinstance(c, ast.Call) and "builtins.int" in t.resolve_call(c, gi).ext]
+        conv = [c for c in ast.walk(tr) if isinstance(c, ast.Call) and ("builtins.int" in t.resolve_call(c, gh).ext or
+                                                                         (isinstance(c.func, ast.Name) and c.func.id in conv_is_int))]
         for h in tr.handlers:
-            if g.catches(h, "ValueError", gi) and not g.reraises(h):
+            if g.catches(h, "ValueError", gh) and not g.reraises(h):
                 rets = [n for n in ast.walk(h) if isinstance(n, ast.Return)]
-                if rets and all(r.value is not None and norm(r.value) == gi.params[2] for r in rets) and conv and \
+                if rets and all(r.value is not None and norm(r.value) == dflt_name for r in rets) and conv and \
                         any(paths.within(p, conv[0], b) for b in tr.body):
                     ok = True
     # a limit that is given is used as given: 0 is a value (fire_count 0 = never, fire_period 0 = no spacing), so the default
     # stands in only for an absent key - not for a falsy value (`value or default`, `if not value`)
-    if len(tries) == 1:
-        for c_ in [c for c in ast.walk(tries[0]) if isinstance(c, ast.Call) and "builtins.int" in t.resolve_call(c, gi).ext]:
+    conv_sites = [(gi, c) for c in t.calls_in(gi) if "builtins.int" in t.resolve_call(c, gi).ext]
+    if gh is not gi:
+        # the text handed to the parsing helper plays the part of int()'s argument
+        conv_sites = [(gi, c) for c in t.calls_in(gi) if t.resolve_call(c, gi).repo and c.args][:1]
+    if conv_sites:
+        for _gf, c_ in conv_sites:
             arg_ = c_.args[0] if c_.args else None
             exprs_ = [arg_]
             if isinstance(arg_, ast.Name):
